@@ -566,6 +566,75 @@ def flag_and_none_stream(ctx, res):
                                         "required field / fails its validator", case)
 
 
+def odd_exception_stream(ctx, res):
+    """validators that fail with something other than ValueError / TypeError (a KeyError from a table lookup, an assert, a
+    RuntimeError, an OSError), registered on a schema (root, nested, item of a configuration list) or on a field: raising mode raises the
+    library's validation error, collecting mode RETURNS a non-empty list — the two modes agree"""
+    import cincoconfig as cc
+    from cincoconfig.core import ValidationError
+    from cincoconfig.support import validator as register
+
+    def failing(kind):
+        def v(cfg, *value):
+            if kind == "KeyError":
+                return {"postgres": 5432}["sqlite"]
+            if kind == "AssertionError":
+                assert False, "more replicas than max_replicas"
+            if kind == "RuntimeError":
+                raise RuntimeError("boom")
+            if kind == "OSError":
+                raise OSError(2, "No such file")
+            if kind == "ZeroDivisionError":
+                return 1 // 0
+            raise ValueError("plain")
+        return v
+    for kind in ("KeyError", "AssertionError", "RuntimeError", "OSError", "ZeroDivisionError", "ValueError"):
+        for where in ("root-schema", "nested-schema", "item-schema", "field"):
+            item = cc.Schema()
+            item.v = cc.IntField(default=1)
+            s = cc.Schema()
+            s.name = cc.StringField(default="n")
+            s.db.driver = cc.StringField(default="postgres")
+            s.items = cc.ListField(item, default=lambda: [])
+            if where == "root-schema":
+                register(s)(failing(kind))
+            elif where == "nested-schema":
+                register(s.db)(failing(kind))
+            elif where == "item-schema":
+                register(item)(failing(kind))
+            else:
+                register(s.db.driver)(failing(kind))
+            tree = {"name": "x", "db": {"driver": "sqlite"}, "items": [{"v": 2}]}
+            case = {"stream": "odd-exception", "raises": kind, "where": where}
+            res.case(stable(case), kind="odd-exception:" + where)
+            outcomes = {}
+            for mode in ("load_tree", "json", "validate", "collect"):
+                cfg = s()
+                try:
+                    if mode == "load_tree":
+                        cfg.load_tree(copy.deepcopy(tree))
+                        outcomes[mode] = "returned"
+                    elif mode == "json":
+                        cfg.loads(json.dumps(tree).encode(), format="json")
+                        outcomes[mode] = "returned"
+                    elif mode == "validate":
+                        cfg.validate()
+                        outcomes[mode] = "returned"
+                    else:
+                        errs = cfg.validate(collect_errors=True)
+                        outcomes[mode] = "errors:%d" % len(errs) if all(isinstance(e, ValidationError) for e in errs) else "errors:not-validation-errors"
+                except ValidationError:
+                    outcomes[mode] = "ValidationError"
+                except BaseException as e:  # noqa
+                    outcomes[mode] = "escaped:" + type(e).__name__
+            escaped = {m: o for m, o in outcomes.items() if o.startswith("escaped") or o == "errors:not-validation-errors"}
+            if escaped:
+                res.violate("C11:validator-failure-escaped", "a validator's failure did not surface as the library's validation error (raising mode) / as an entry of the returned "
+                            "list (collecting mode)", dict(case, outcomes=outcomes))
+            elif (outcomes["validate"] == "ValidationError") != (outcomes["collect"] not in ("errors:0",)):
+                res.violate("C11:modes-disagree", "collecting mode returns a non-empty list exactly when raising mode raises — not here", dict(case, outcomes=outcomes))
+
+
 def env_required_stream(ctx, res):
     """required fields bound to an environment variable, with the variable in each of its states (unset, set but empty, set and
     valid) and a tree that omits the field or gives it: a load / validation that returns means the field has a value; a variable that
@@ -703,6 +772,7 @@ def run(ctx, n_quick=250, n_thorough=8000):
     guard(res, "C11", container_field_validator_stream, ctx, res)
     guard(res, "C11", catalogue_chain_stream, ctx, res)
     guard(res, "C11", flag_and_none_stream, ctx, res)
+    guard(res, "C11", odd_exception_stream, ctx, res)
     return res
 
 
